@@ -42,12 +42,13 @@ const (
 )
 
 const (
-	stFree      int32 = iota
-	stOut             // released: running, or blocked inside the Go runtime
-	stParked          // at a yield point; schedulable
-	stBlocked         // waiting for Wake(key); not schedulable
-	stIdleWait        // waiting for "nothing enabled at the current virtual time"
-	stStallWait       // waiting for "nothing enabled and no timer will change that"
+	stFree           int32 = iota
+	stOut                  // released: running, or blocked inside the Go runtime
+	stParked               // at a yield point; schedulable
+	stBlocked              // waiting for Wake(key); not schedulable
+	stIdleWait             // waiting for "nothing enabled at the current virtual time"
+	stStallWait            // waiting for "nothing enabled and no timer will change that"
+	stBlockedOrStall       // waiting for Wake(key), or for a stall
 	stDone
 )
 
@@ -70,6 +71,7 @@ type G struct {
 	pc        uintptr // call site of the yield it is parked at
 	prio      int     // PCT priority
 	fn        func()
+	stalled   bool // set when a stBlockedOrStall wait was ended by a stall
 	Daemon    bool // harness helper goroutine: not counted as live for leak purposes
 }
 
@@ -171,6 +173,9 @@ type Sim struct {
 	unknownSpawns atomic.Int64
 
 	classCount [numClasses]int64
+
+	ev       evLog
+	counters [NumCounters]int64
 }
 
 const pairTab = 1 << 14
@@ -489,7 +494,7 @@ func Wake(key unsafe.Pointer) {
 	k := uintptr(key)
 	for i := 0; i < s.ng; i++ {
 		g := &s.gs[i]
-		if g.state == stBlocked && g.key == k {
+		if (g.state == stBlocked || g.state == stBlockedOrStall) && g.key == k {
 			g.state = stParked
 		}
 	}
@@ -518,6 +523,21 @@ func AwaitStall() {
 		panic("simrt.AwaitStall outside simulation")
 	}
 	s.park(g, stStallWait, 0, ClassApp, 0)
+}
+
+// WaitOrStall parks the caller until Wake(key) (returns true) or until the run
+// stalls: nothing is enabled and the stall horizon passes without any reaction
+// (returns false). Callers re-check their condition.
+//
+//go:norace
+func WaitOrStall(key unsafe.Pointer) bool {
+	s, g := self()
+	if s == nil || g == nil {
+		panic("simrt.WaitOrStall outside simulation")
+	}
+	g.stalled = false
+	s.park(g, stBlockedOrStall, uintptr(key), ClassApp, 0)
+	return !g.stalled
 }
 
 // Sleep sleeps in virtual time and yields on wake-up.
@@ -816,6 +836,12 @@ func (s *Sim) Run(main func()) *Result {
 				g.state = stParked
 				continue
 			}
+			if g := s.find(stBlockedOrStall); g != nil && stallRounds < 8 {
+				stallRounds++
+				g.stalled = true
+				g.state = stParked
+				continue
+			}
 			s.res.Stalled = true
 			break
 		}
@@ -886,7 +912,7 @@ func (s *Sim) teardown() {
 	for i := 0; i < s.ng; i++ {
 		g := &s.gs[i]
 		switch g.state {
-		case stParked, stBlocked, stIdleWait, stStallWait:
+		case stParked, stBlocked, stIdleWait, stStallWait, stBlockedOrStall:
 			g.state = stOut
 			g.release <- struct{}{}
 			synctest.Wait()
